@@ -12,6 +12,7 @@ pub mod c13;
 pub mod c14;
 pub mod c15;
 pub mod c16;
+pub mod c17;
 pub mod c19;
 pub mod common;
 
@@ -33,9 +34,10 @@ pub fn spec(id: &str) -> Option<PropertySpec> {
         "C14" => Some(c14::spec()),
         "C15" => Some(c15::spec()),
         "C16" => Some(c16::spec()),
+        "C17" => Some(c17::spec()),
         "C19" => Some(c19::spec()),
         _ => None,
     }
 }
 
-pub const ALL: [&str; 15] = ["C01", "C02", "C03", "C04", "C05", "C06", "C07", "C08", "C09", "C12", "C13", "C14", "C15", "C16", "C19"];
+pub const ALL: [&str; 16] = ["C01", "C02", "C03", "C04", "C05", "C06", "C07", "C08", "C09", "C12", "C13", "C14", "C15", "C16", "C17", "C19"];
